@@ -1889,6 +1889,20 @@ func TestVerif_C19(t *testing.T) {
 	})
 	rep.Require(rep.Counter("relay_sessions") >= int64(nRelay*2), "sessions through a relay")
 
+	// phase 0b: one instance serving several sessions of one connection (merge children, the
+	// instance stacked twice, below another instance), and one instance seeing thousands of kinds
+	nComp := vk.N(120, 1600)
+	vk.ParallelW(8, nComp, func(i int) {
+		if rep.Violations() < 6 {
+			c19Compositions(rep, i)
+		}
+	})
+	c19ManyKinds(rep)
+	if rep.Violations() == 0 {
+		rep.Require(rep.Counter("composition_sessions") >= int64(nComp*9/10), "composition sessions")
+		rep.Require(rep.Counter("distinct_kinds_through_one_instance") >= 4000, "many-kinds scenario")
+	}
+
 	// phase 1: bursts, few groups at a time so that the spinning goroutines own their CPUs
 	nBurst := vk.N(20, 96)
 	burstRounds := vk.N(250, 1000)
